@@ -124,7 +124,7 @@ def corr_objects_x(check, tier):
     from spyne.util.xml import get_object_as_xml
     from spyne.protocol.xml import XmlDocument
     rng = check.rng
-    n_univ = 12 if tier == 'quick' else 100
+    n_univ = 8 if tier == 'quick' else 100
     per_class = 4 if tier == 'quick' else 10
     prots = {False: XmlDocument(), True: XmlDocument(validator='soft')}
     for ui in range(n_univ):
@@ -379,12 +379,14 @@ def corr_calls(check, tier):
     per_method = 2 if tier == 'quick' else 5
     for wi in range(n_worlds):
         w = World(rng)
+        groups = {}                 # Coq definitions of the world -> [server cases, client request cases, client response cases]
         for prot in PROTS:
             for val in VALIDATORS:
                 app, plan = w.app(prot, val)
-                imports = IMPORTS_X + w.coq_defs(app)
-                cases = []
-                req_cases, resp_cases = [], []
+                # one model file per world: the class table and the service are the same for its nine applications
+                # (were they ever to differ, the cases are kept apart by their definitions)
+                cases, req_cases, resp_cases = groups.setdefault(w.coq_defs(app), ([], [], []))
+                pv = '%s, %s, ' % (G_PROTO[prot], G_VMODE[val])
                 sc = Z.make_spyne_client(app, WsgiApplication(app), prot)
                 for mi, m in enumerate(w.svc['methods']):
                     for _ in range(per_method):
@@ -423,33 +425,34 @@ def corr_calls(check, tier):
                                 g_obs = '(RFault %s %s)' % (g_log(log), FCODES[obs[1]])
                             else:
                                 g_obs = '(RCrash %s %s)' % (g_log(log), obs[1])
-                            cases.append(('(%s, %s, %s, %s)' % (gbool(sv), X.g_xml(server_parse(raw)), g_ufun(call), g_obs),
+                            cases.append(('(%s%s, %s, %s, %s)' % (pv, gbool(sv), X.g_xml(server_parse(raw)), g_ufun(call), g_obs),
                                           'world %d %s/%s %s [%s] %s: %s -> %r log %r' % (
                                               wi, prot, val, m['name'], m['style'], what, raw.decode()[:400], obs[:2] if obs[0] != 'return' else obs[1][:300], log)))
                             check.count(('call', prot, val, raw))
                             if what == 'as written':
                                 if oracle_server_case(check, w, prot, val, m, call, raw, obs, log, 'ref-encoder'):
                                     oracle_response_case(check, w, app, prot, val, m, call, raw, obs[1], 'ref-decoder')
-                lib.correspond(check, 'call_server', imports, 'bool * xnode * ufun * rsp',
-                               '(fun c => let \'(sv, doc, f, o) := c in rsp_eqb (rsp_wire (server spyne_leaf %s %s (fun _ => sv) UU SV %d f doc)) o)'
-                               % (G_PROTO[prot], G_VMODE[val], FUEL), cases,
-                               show='(fun c : bool * xnode * ufun * rsp => let \'(sv, doc, f, o) := c in server spyne_leaf %s %s '
-                                    '(fun _ => sv) UU SV %d f doc)' % (G_PROTO[prot], G_VMODE[val], FUEL))
-                lib.correspond(check, 'call_client_request', imports, 'nat * option (list val) * list val * xnode',
-                               '(fun c => let \'(i, hv, args, t) := c in match nth_error (s_methods SV) i with Some m => '
-                               'match client_request spyne_leaf %s UU SV %d i m hv args with Ok e => xnode_eqb (wire e) t | _ => false end '
-                               '| None => false end)' % (G_PROTO[prot], FUEL), req_cases,
-                               show='(fun c : nat * option (list val) * list val * xnode => let \'(i, hv, args, t) := c in '
-                                    'match nth_error (s_methods SV) i with Some m => client_request spyne_leaf %s UU SV %d i m hv args '
-                                    '| None => Crash OtherExn end)' % (G_PROTO[prot], FUEL))
-                lib.correspond(check, 'call_client_response', imports, 'nat * xnode * out (val * option (list val))',
-                               '(fun c => let \'(i, t, o) := c in match nth_error (s_methods SV) i with Some m => '
-                               'out_eqb (fun a b => val_eqb (fst a) (fst b) && olist_eqb (snd a) (snd b)) '
-                               '(client_response spyne_leaf %s %s UU SV %d i m t) o | None => false end)'
-                               % (G_PROTO[prot], G_VMODE[val], FUEL), resp_cases,
-                               show='(fun c : nat * xnode * out (val * option (list val)) => let \'(i, t, o) := c in '
-                                    'match nth_error (s_methods SV) i with Some m => client_response spyne_leaf %s %s UU SV %d i m t '
-                                    '| None => Crash OtherExn end)' % (G_PROTO[prot], G_VMODE[val], FUEL))
+        for defs, (cases, req_cases, resp_cases) in groups.items():
+            imports = IMPORTS_X + defs
+            lib.correspond(check, 'call_server', imports, 'proto * vmode * bool * xnode * ufun * rsp',
+                           '(fun c => let \'(p, v, sv, doc, f, o) := c in rsp_eqb (rsp_wire (server spyne_leaf p v (fun _ => sv) UU SV %d f doc)) o)'
+                           % FUEL, cases,
+                           show='(fun c : proto * vmode * bool * xnode * ufun * rsp => let \'(p, v, sv, doc, f, o) := c in server spyne_leaf p v '
+                                '(fun _ => sv) UU SV %d f doc)' % FUEL)
+            lib.correspond(check, 'call_client_request', imports, 'proto * vmode * nat * option (list val) * list val * xnode',
+                           '(fun c => let \'(p, v, i, hv, args, t) := c in match nth_error (s_methods SV) i with Some m => '
+                           'match client_request spyne_leaf p UU SV %d i m hv args with Ok e => xnode_eqb (wire e) t | _ => false end '
+                           '| None => false end)' % FUEL, req_cases,
+                           show='(fun c : proto * vmode * nat * option (list val) * list val * xnode => let \'(p, v, i, hv, args, t) := c in '
+                                'match nth_error (s_methods SV) i with Some m => client_request spyne_leaf p UU SV %d i m hv args '
+                                '| None => Crash OtherExn end)' % FUEL)
+            lib.correspond(check, 'call_client_response', imports, 'proto * vmode * nat * xnode * out (val * option (list val))',
+                           '(fun c => let \'(p, v, i, t, o) := c in match nth_error (s_methods SV) i with Some m => '
+                           'out_eqb (fun a b => val_eqb (fst a) (fst b) && olist_eqb (snd a) (snd b)) '
+                           '(client_response spyne_leaf p v UU SV %d i m t) o | None => false end)' % FUEL, resp_cases,
+                           show='(fun c : proto * vmode * nat * xnode * out (val * option (list val)) => let \'(p, v, i, t, o) := c in '
+                                'match nth_error (s_methods SV) i with Some m => client_response spyne_leaf p v UU SV %d i m t '
+                                '| None => Crash OtherExn end)' % FUEL)
         if wi == 0:
             check.sample({'service': X.jsonable(w.svc)})
 
@@ -478,7 +481,8 @@ def client_corr_case(check, w, app, sc, plan, prot, val, mi, m, call, req_cases,
         check.mismatch('call_client_request', 'the Spyne client wrote no request for %s %r: %r' % (m['name'], call['args'], r))
         return
     g_hv = gopt(call['in_header'] if hdr is not None else None, lambda hh: glist([X.g_val(v) for v in hh]))
-    req_cases.append(('(%d%%nat, %s, %s, %s)' % (mi, g_hv, glist([X.g_val(a) for a in call['args']]), X.g_xml(etree.fromstring(sent))),
+    pv = '%s, %s, ' % (G_PROTO[prot], G_VMODE[val])
+    req_cases.append(('(%s%d%%nat, %s, %s, %s)' % (pv, mi, g_hv, glist([X.g_val(a) for a in call['args']]), X.g_xml(etree.fromstring(sent))),
                       '%s/%s %s args %r hdr %r -> %s' % (prot, val, m['name'], call['args'], call['in_header'], sent.decode()[:400])))
     check.count(('client_req', prot, val, sent))
     received = getattr(proc, 'received', None)
@@ -514,7 +518,7 @@ def client_corr_case(check, w, app, sc, plan, prot, val, mi, m, call, req_cases,
         if r[2].startswith('Fault:'):
             return                     # the server answered with a fault: not a response document of this method
         g_o = '(Crash %s)' % r[1]
-    resp_cases.append(('(%d%%nat, %s, %s)' % (mi, X.g_xml(rtree), g_o),
+    resp_cases.append(('(%s%d%%nat, %s, %s)' % (pv, mi, X.g_xml(rtree), g_o),
                        '%s/%s %s response %s -> %r' % (prot, val, m['name'], received.decode()[:400], r[:2])))
     check.count(('client_resp', prot, val, received))
 
@@ -626,11 +630,15 @@ def run(check):
     check.regen(['numtypes'])
     check.check_sources()
     check.prove('Props.C01', THEOREMS)
-    c01_wire.corr_objects(check, tier)
-    corr_objects_x(check, tier)
-    corr_calls(check, tier)
-    oracle_clients(check, tier)
+    import time
+    t0 = time.time()
+    for name, fn in (('wire objects', c01_wire.corr_objects), ('x objects', corr_objects_x), ('calls', corr_calls),
+                     ('client oracles', oracle_clients)):
+        fn(check, tier)
+        check.log('C01 phase %s: %.1fs' % (name, time.time() - t0))
+        t0 = time.time()
     lib.flush_correspondences(check)
+    check.log('C01 phase model evaluation (coqc): %.1fs' % (time.time() - t0))
     return check.finish()
 
 
